@@ -7,7 +7,7 @@ EXPLANATION = ("C18: (R1) the comment scan: the two 21-byte prefixes, slice reac
                "combinations), trim, legacy flag, first match returns; (R2) producer/consumer pairing of the data URL: the "
                "literal prefix of to_data_url's format template must be among the preambles decode_data_url strips, and both "
                "sides use the standard padded base64 alphabet; (R3) data: references go to decode_data_url; (R4) the detection "
-               "predicate, evaluated over all 256 key-presence combinations, is true for what each writer always writes.")
+               "predicate, evaluated over all 256 key-presence combinations, is true for what each writer always writes; (R8) the reader form of the predicate passes a header-less document through the streaming stripper unchanged whatever the chunking; (R9) the consumer of the data URL is the regular decoder (accumulators, range-mapping reader: shared with C02).")
 NOT_DECIDED = "first-match over all texts as a value-level statement (BufRead::lines is trusted); equality of the decoded map."
 
 
@@ -28,6 +28,13 @@ RULES = {
     "C18.R6": lambda ctx: __import__("rules.decoderrules", fromlist=["x"]).handover(ctx, "C18.R6"),
     "C18.R7": lambda ctx: __import__("rules.encrules", fromlist=["x"]).optional_keys(ctx, "C18.R7"),
     "C18.R7b": lambda ctx: __import__("rules.encrules", fromlist=["x"]).serde_symmetry(ctx, "C18.R7b"),
+    # the reader form of the detection predicate (and decode) reads through StripHeaderReader: a serialised map must
+    # pass it unchanged however it is chunked
+    "C18.R8a": lambda ctx: __import__("rules.hdrrules", fromlist=["x"]).stream_expected(ctx, "C18.R8a") and None,
+    "C18.R8b": lambda ctx: __import__("rules.hdrrules", fromlist=["x"]).chunk_independence(ctx, "C18.R8b"),
+    # the consumer side of the data URL is the regular decoder: its accumulators and the range-mapping reader
+    "C18.R9a": lambda ctx: __import__("rules.decoderrules", fromlist=["x"]).accumulators(ctx, "C18.R9a"),
+    "C18.R9b": lambda ctx: __import__("rules.decoderrules", fromlist=["x"]).range_reader(ctx, "C18.R9b"),
 }
 
 
